@@ -27,6 +27,7 @@ D = ['bitstring.array_:Array.__getitem__', 'bitstring.array_:Array.__setitem__',
 # dtype -> (bits per item, kind, value range for ints)
 DT = {
     'uint5': (5, 'uint'), 'int8': (8, 'int'), 'uintle16': (16, 'uint'), 'intbe24': (24, 'int'), 'hex8': (8, 'hex'), 'bin3': (3, 'bin'), 'oct6': (6, 'oct'), 'bool': (1, 'bool'),
+    'uintbe16': (16, 'uint'), 'intle16': (16, 'int'), 'int16': (16, 'int'), 'uintne16': (16, 'uint'),
     'float16': (16, 'float'), 'bfloat': (16, 'float'), 'e4m3mxfp': (8, 'float'), 'bytes2': (16, 'bytes'), '>H': (16, 'uint'), '<i': (32, 'int'), 'uint1': (1, 'uint'), 'int3': (3, 'int'),
 }
 
@@ -444,6 +445,17 @@ def h_bitwise(dtype, k, opn):
     return h
 
 
+def _is_le(d):
+    import sys
+    return ('le' in d) or d.startswith('<') or ('ne' in d and sys.byteorder == 'little')
+
+
+def _bswap(seg):
+    # byte-reverse a bitarray whose length is a multiple of 8 (symbolic contents allowed: slicing only)
+    n = len(seg) // 8
+    return O.ref_concat(*[seg[8 * (n - 1 - i):8 * (n - i)] for i in range(n)]) if n else seg
+
+
 def h_between(d1, d2, k, opn):
     def h(K):
         import bitstring
@@ -465,7 +477,8 @@ def h_between(d1, d2, k, opn):
         res = []
         bad = False
         for i in range(k):
-            u, v = U.ba2int(x[i * w1:(i + 1) * w1], signed=s1), U.ba2int(y[i * w2:(i + 1) * w2], signed=s2)
+            xs, ys = x[i * w1:(i + 1) * w1], y[i * w2:(i + 1) * w2]
+            u, v = U.ba2int(_bswap(xs) if _is_le(d1) else xs, signed=s1), U.ba2int(_bswap(ys) if _is_le(d2) else ys, signed=s2)
             try:
                 z = ARITH[opn](u, v)
             except (ZeroDivisionError, ValueError):
@@ -480,7 +493,7 @@ def h_between(d1, d2, k, opn):
         if not r.ok:
             return K.fail('operator between Arrays raised', exc=r.excname)
         out = r.value
-        exp = O.ref_concat(*[U.int2ba(z, length=rw, signed=rs) for z in res]) if k else O.empty()
+        exp = O.ref_concat(*[(_bswap(U.int2ba(z, length=rw, signed=rs)) if _is_le(rd) else U.int2ba(z, length=rw, signed=rs)) for z in res]) if k else O.empty()
         return K.check(out.dtype.name == _dt(rd).name and out.dtype.length == _dt(rd).length and same(raw(out.data), exp), 'operator between Arrays: promoted dtype / values', got=raw(out.data), expected=exp)
     return h
 
@@ -543,7 +556,9 @@ def conditions(tier):
             add(f'C14.compare[{d},{opn},k=2]', h_compare(d, 2, opn), 'all data of 2 items x scalar in [-3,20]', dtype=d)
         for opn in (['and'] if q else ['and', 'or', 'xor']):
             add(f'C14.bitwise[{d},{opn},k=2]', h_bitwise(d, 2, opn), 'all data of 2 items x every mask', dtype=d)
-    for (d1, d2) in ([('uint5', 'int8'), ('int8', 'uint5'), ('uint5', 'uint5')] if q else [('uint5', 'int8'), ('int8', 'uint5'), ('uint5', 'uint5'), ('int3', 'int8'), ('uint1', 'uint5'), ('int8', 'int3')]):
+    for (d1, d2) in ([('uint5', 'int8'), ('int8', 'uint5'), ('uint5', 'uint5'), ('uintle16', 'uintbe16'), ('uintbe16', 'uintle16'), ('int16', 'intle16')] if q else
+                     [('uint5', 'int8'), ('int8', 'uint5'), ('uint5', 'uint5'), ('int3', 'int8'), ('uint1', 'uint5'), ('int8', 'int3'), ('uintle16', 'uintbe16'), ('uintbe16', 'uintle16'),
+                      ('int16', 'intle16'), ('intle16', 'int16'), ('uintne16', 'uintbe16'), ('uintle16', 'int16'), ('>H', 'uintle16')]):
         for opn in (['add'] if q else ['add', 'sub', 'mul']):
             add(f'C14.between[{d1},{d2},{opn},k=2]', h_between(d1, d2, 2, opn), 'all data of two 2-item Arrays', d1=d1, d2=d2)
     return conds
